@@ -282,4 +282,10 @@ def stepOp (od : Option D) (t : List String) : Option D × String :=
 
 end GnoVerif.Drive.C28
 
-def main : IO Unit := GnoVerif.Kit.loop (none : Option GnoVerif.Drive.C28.D) GnoVerif.Drive.C28.stepOp
+/-- the harness kit cuts every answer at 300 bytes (all output is ASCII). -/
+def GnoVerif.Drive.C28.stepCut (od : Option GnoVerif.Drive.C28.D) (t : List String) :
+    Option GnoVerif.Drive.C28.D × String :=
+  let (d, out) := GnoVerif.Drive.C28.stepOp od t
+  (d, if out.length > 300 then String.ofList (out.toList.take 300) else out)
+
+def main : IO Unit := GnoVerif.Kit.loop (none : Option GnoVerif.Drive.C28.D) GnoVerif.Drive.C28.stepCut
